@@ -208,11 +208,16 @@ structure QState where
   neighbors : Nat
 deriving Repr, Inhabited
 
+/-- `mep_head = tn->mep_parent` for the leaf at top-down path `p` (bottom-up result) -/
+def headOfPath (p : List Bool) : Option (List Bool) :=
+  match p.reverse with
+  | [] => none
+  | _ :: up => some up
+
 def init (t : TTree) : QState :=
-  let (t', q, _, p) := initDescend t
-  { tree := t', queue := q, nextIndex := 0,
-    head := match p.reverse with | [] => none | _ :: up => some up,
-    radius := t'.radius, neighbors := 0 }
+  let r := initDescend t
+  { tree := r.1, queue := r.2.1, nextIndex := 0, head := headOfPath r.2.2.2,
+    radius := r.1.radius, neighbors := 0 }
 
 /-- `getNextPoint(leaf)`: the reported squared distance is the LEAF's distance
 (`m_squaredPtDistance`), the index is `leaf.m_tree->index(m_nextIndex)`.
@@ -220,22 +225,27 @@ def init (t : TTree) : QState :=
 def getNextPoint (s : QState) (f : Leaf) : QState × Option (Rat × Nat) :=
   ({ s with nextIndex := s.nextIndex + 1 }, (f.pts[s.nextIndex]?).map fun i => (f.d, i))
 
-/-- second half of `next()`: possibly enqueue more, then start the front leaf -/
-def fresh (s : QState) (q : List Leaf) : QState × Option (Rat × Nat) :=
+/-- `if (m_queue.empty() || begin().m_squaredPtDistance > m_squaredRadius){ enqueue more; re-compute the radius }`
+on the queue `q` (the current queue, possibly after erasing the exhausted front
+leaf).  Returns trace tree, queue, head and radius. -/
+def refill (s : QState) (q : List Leaf) : TTree × List Leaf × Option (List Bool) × Rat :=
   let needMore := match front q with
     | none => true
     | some f => decide (s.radius < f.d)
-  let (t, q, head, radius) :=
-    if needMore then
-      match s.head with
-      | none => (s.tree, q, none, s.tree.radius)
-      | some p =>
-        let (t', q', h') := enqLoop s.tree q s.head p
-        (t', q', h', t'.radius)
-    else (s.tree, q, s.head, s.radius)
-  let s' : QState := { tree := t, queue := q, nextIndex := 0, head := head, radius := radius,
+  if needMore then
+    match s.head with
+    | none => (s.tree, q, none, s.tree.radius)
+    | some p =>
+      let r := enqLoop s.tree q s.head p
+      (r.1, r.2.1, r.2.2, r.1.radius)
+  else (s.tree, q, s.head, s.radius)
+
+/-- second half of `next()`: possibly enqueue more, then start the front leaf -/
+def fresh (s : QState) (q : List Leaf) : QState × Option (Rat × Nat) :=
+  let r := refill s q
+  let s' : QState := { tree := r.1, queue := r.2.1, nextIndex := 0, head := r.2.2.1, radius := r.2.2.2,
                        neighbors := s.neighbors + 1 }
-  match front q with
+  match front r.2.1 with
   | none => (s', none)          -- C++: `*m_queue.begin()` of an empty queue
   | some f => getNextPoint s' f
 
